@@ -10,13 +10,18 @@ import common
 from common import sx, q, jq, cname, cnum, ok
 from units import U, BLOCK
 import props.c01 as c01
+import props.c05 as c05
 
 ID = 'C17'
 LEVEL = 'proof'
 TIE = {'HighestAverages.evaluate': 'correspondence (stream ha-tie, model shared with C01)',
        'component/divisor.py': 'translator (GenTie_Divisor.v, obligation of C01) + strictness lemmas Props/C17.v C17_builtin_strict',
        'convert.* additive folds, core.get_n_best': 'models shared with C13 / C09 (correspondence there); relational clauses on the implementation here',
-       'condorcet.Copeland/MinimaxCondorcet/Schulze': 'relational clauses on the implementation only',
+       'condorcet.Copeland/MinimaxCondorcet/Schulze': 'models of C05 (Model/Condorcet.v, correspondence there); relational clauses on the implementation here',
+       'convert.RankedToCondorcetVotes.convert': 'correspondence (stream rc-tie against Model/Hybrids.v pairwise, unit C05+2; theorems C17_ballot_pairwise_exact, '
+                                                 'C17_ballot_raises, C17_copeland_ballots, C17_minimax_ballots) + the exact delta evaluated on the implementation (stream rc-move-exact)',
+       'component/rankscore.py': 'translator (GenTie_Rankscore.v, obligation of C13) + C17_gen_scorers_nonincreasing on the generated expressions; '
+                                 'rank_scores model shared with C13 (correspondence there); stream scorer-nonincreasing on the implementation',
        'sequential.PreferenceAddition.evaluate (+ _decouple_equal_rankings, _add_round_votes, Tie.reconcile)':
            'correspondence (streams pa-exhaustive-small, pa-random against Model/Bucklin.v; theorems C17_bucklin, C17_oklahoma, C17_preference_addition*)'}
 RULE = ('ha-tie: C01 generators (random, constructed quotient ties, zero-vote/caps) against the model. house: every such case and the '
@@ -27,17 +32,24 @@ RULE = ('ha-tie: C01 generators (random, constructed quotient ties, zero-vote/ca
         'upward move of w (one place up, to the top; approve w; raise w\'s score) and every added ballot ranking w first (a bullet vote for all rules; '
         'also longer ballots for the additive rules and Oklahoma) must again give [w]. pa-*: PreferenceAddition.evaluate against the model on random / small exhaustive '
         'ranked profiles (truncation, shared ranks, 6 coefficient specs incl. an empty list, split on/off, 1..4 seats). sole-winner-shared-ranks: Bucklin / Oklahoma, every upward move of '
-        'the sole winner on a ballot WITH shared ranks (to a higher place; out of a shared rank to a place of its own). non-trivial = a tie in either result / '
+        'the sole winner on a ballot WITH shared ranks (to a higher place; out of a shared rank to a place of its own). rc-tie: RankedToCondorcetVotes.convert against the model '
+        '(profiles with shared ranks, truncation, zero weights, and their moved copies). rc-move-exact: on the implementation, moving a candidate up on x units of one ballot changes the '
+        'pairwise dictionary exactly as C17_ballot_pairwise_exact says and keeps its candidates; a sole Copeland / minimax winner stays. scorer-nonincreasing: every built-in scorer on a small '
+        'exhaustive parameter domain returns n_ranked non-increasing scores. non-trivial = a tie in either result / '
         'a binding cap / previous gains (house, votes), or the move changes some candidate\'s standing (sole-winner); distinct by case hash')
 PARTIAL = ['Schulze sole-winner monotonicity: REFUTED for votelib\'s ranking by the number of path-wins (C17_schulze_refuted, witnesses C17_schulze_witness / '
            'C17_schulze_witness_loses, known finding C17-schulze-path-win-count, corpus/C17/schulze-winner-*.json); proved instead: the winner keeps every path-win, '
            'gets no path-defeat and its count does not drop (C17_schulze_partial)',
-           'Bucklin / Oklahoma with split shared ranks: proved when the CHANGED ballot has no shared rank (the others may); changed ballots with shared ranks are decided per explored case '
-           '(stream sole-winner-shared-ranks) - refuted for the code as written when the ballot has two or more shared ranks (C17_bucklin_shared_refuted, known finding C17-bucklin-splice-offset)',
+           'Bucklin / Oklahoma with split shared ranks: proved for the repaired splicing loop also when the CHANGED ballot has shared ranks - the winner on a rank of its own moves up past '
+           'plain or shared ranks (C17_bucklin_shared, C17_oklahoma_shared, C17_preference_addition_shared) or leaves a shared rank for a place of its own (C17_bucklin_leave_shared, '
+           'C17_oklahoma_leave_shared, C17_preference_addition_leave_shared / _leave_pair); refuted for the loop as written: C17_bucklin_shared_refuted, finding C17-bucklin-splice-offset (fixed). '
+           'Other single-ballot improvements of a ballot with shared ranks (e.g. several steps at once that are not a chain of these) fall under C17_preference_addition_split_general per case',
            'Bucklin with a new ballot that ranks further candidates below the winner: refuted (C17_bucklin_added_full_refuted, the participation failure of Bucklin); proved for the bullet vote and for any such ballot under Oklahoma',
            'vote monotonicity with zero-vote parties or when the larger run ends in a tie or with caps exhausted: relational checker only',
-           'positional rules: C17_positional needs the scorer to be non-increasing at the two places; proved for Dowdall, modified Borda and '
-           'fixed top, checked per case for Borda, geometric and sequence-based scorers']
+           'positional rules: proved for every built-in scorer that is non-increasing along the ballot - all of Borda, Dowdall, modified Borda, fixed top; Geometric with base >= 1; '
+           'SequenceBased with a non-increasing sequence ending non-negative (C17_scorer_ok, C17_positional_any); refuted otherwise (C17_scorers_conditions_needed); ballots of plain ranks',
+           'Copeland / minimax on ballots: proved through the converter model for a winner moving up from a rank of its own or out of a shared rank (C17_copeland_ballots, C17_minimax_ballots, '
+           'C17_copeland_ballots_leave, C17_minimax_ballots_leave; unranked_at_bottom=True, the default); an ADDED ballot and an unranked winner being ranked are checker-decided']
 TRUSTED = []
 ASSUMPTIONS = ['a "single ballot" is one unit of weight of one ballot type of the profile dictionary']
 
@@ -657,6 +669,218 @@ def sole_winner_shared(ctx, stream, count, rng):
     ctx.streams[stream] = dict(cases=n, deviations=bad)
 
 
+# ------------------------------------------------------------------ RankedToCondorcetVotes: model tie + the exact effect of ONE moved ballot
+# (Proofs/RaisesBallot_proofs.v: pairwise_move_exact / pairwise_move_cands / copeland_ballot_monotone / minimax_ballot_monotone are
+# about Model/Hybrids.v [pairwise]; unit C05+2 is that model on the wire)
+def rc_flat(items):
+    return [x for it in items for x in (it if isinstance(it, list) else [it])]
+
+
+def rc_replace(prof, bi, b2, x):
+    """x units of ballot type bi become ballot b2 (merged with an equal ballot: a Python dict has one entry per ballot)"""
+    out = []
+    for i, (b, w) in enumerate(prof):
+        if i == bi:
+            if w - x > 0:
+                out.append([b, w - x])
+        else:
+            out.append([b, w])
+    for y in out:
+        if pa_py_ballot(y[0]) == pa_py_ballot(b2):
+            y[1] += x
+            return out
+    out.append([b2, x])
+    return out
+
+
+def gen_rc_profile(rng):
+    m = rng.randint(2, 6)
+    ids = list(range(1, m + 1))
+    prof, seen = [], set()
+    sp = rng.choice([0, 0.2, 0.5])
+    for _ in range(rng.randint(1, 7)):
+        b = gen_pa_ballot(rng, ids, sp)
+        if pa_py_ballot(b) in seen:
+            continue
+        seen.add(pa_py_ballot(b))
+        prof.append([b, rng.choice([1, rng.randint(1, 4), rng.randint(1, 4), rng.randint(0, 12)])])
+    return prof
+
+
+def rc_convert(prof):
+    import votelib.convert as conv
+    import evalreg
+    d = conv.RankedToCondorcetVotes().convert(evalreg.to_python('ranked', prof))
+    return {(cnum(a), cnum(b)): n for (a, b), n in d.items()}
+
+
+PAIRWISE_MONO = ['copeland_raw', 'copeland_2o', 'minimax_winvotes', 'minimax_margins', 'minimax_pwo']
+
+
+def rc_move_check(ctx, stream, case):
+    """the theorem's statement on the implementation: moving w (on a rank of its own) up past the items b[j:i] of ballot bi, for x units
+    of that ballot, adds x * (number of times c was jumped) to count(w, c), takes the same from count(c, w), changes nothing else and keeps
+    the candidates of the dictionary; a sole Copeland / minimax winner w stays the sole winner.  With `member`: w leaves the shared rank b[i]
+    for a place of its own at j <= i - count(w, c) also rises by x for every other member c of that rank (C17_ballot_leave_exact; the
+    candidate set is compared when the old dictionary is not empty).  -> True if it fails"""
+    import evalreg
+    prof, bi, i, j, x = case['profile'], case['ballot'], case['i'], case['j'], case['x']
+    b = prof[bi][0]
+    if case.get('member') is not None:
+        # w leaves the shared rank b[i] for a place of its own at j <= i (C17_ballot_leave_exact, then C17_ballot_pairwise_exact)
+        w = case['member']
+        rest = [k for k in b[i] if k != w]
+        jumped = rc_flat(b[j:i])
+        below = rest
+        b2 = b[:j] + [w] + b[j:i] + ([rest[0]] if len(rest) == 1 and case.get('plain_rest') else [rest]) + b[i + 1:]
+    else:
+        w = b[i]
+        jumped = rc_flat(b[j:i])
+        below = []
+        b2 = b[:j] + [w] + b[j:i] + b[i + 1:]
+    p2 = rc_replace(prof, bi, b2, x)
+    r0 = common.call_impl(lambda: rc_convert(prof), 10)
+    r1 = common.call_impl(lambda: rc_convert(p2), 10)
+    if r0[0] != 'ok' or r1[0] != 'ok':
+        if r0[0] != r1[0]:
+            ctx.checker_false += 1
+            ctx.report(stream, case, str(r1[1:]), str(r0[1:]), 'RankedToCondorcetVotes: one of the two conversions failed: %s / %s' % (r0, r1))
+            return True
+        return False
+    d0, d1 = r0[1], r1[1]
+    why = None
+    if w in jumped or w in below:
+        return False          # outside the statement (w ranked twice)
+    for (a, c) in set(d0) | set(d1):
+        exp = d0.get((a, c), 0) + x * ((1 if a == w else 0) * (jumped.count(c) + below.count(c)) - jumped.count(a) * (1 if c == w else 0))
+        if d1.get((a, c), 0) != exp:
+            why = 'count(%s, %s) is %s after %s moved up past %s on %d unit(s) of ballot %s, expected %s (was %s)' % (
+                cname(a), cname(c), d1.get((a, c), 0), cname(w), jumped, x, b, exp, d0.get((a, c), 0))
+            break
+    if not why and (d0 or not below) and {k for pr in d0 for k in pr} != {k for pr in d1 for k in pr}:
+        why = 'the candidates of the pairwise dictionary changed: %s -> %s' % (sorted({k for pr in d0 for k in pr}), sorted({k for pr in d1 for k in pr}))
+    if not why and case.get('rule'):
+        import votelib.evaluate.condorcet as cd
+        ev = cd.EVALUATORS[case['rule']]
+        py = lambda d: {(cname(a), cname(c)): n for (a, c), n in d.items()}     # noqa
+        e0 = common.call_impl(lambda: ev.evaluate(py(d0), 1), 10)
+        if e0[0] == 'ok' and sole_winner(e0[1]) == w:
+            ctx.dist['rc-move:sole-winner-moved'] += 1
+            e1 = common.call_impl(lambda: ev.evaluate(py(d1), 1), 10)
+            if not (e1[0] == 'ok' and sole_winner(e1[1]) == w):
+                why = '%s: sole winner %s no longer the sole winner after moving up past %s on ballot %s: %s' % (case['rule'], cname(w), jumped, b, e1[1:])
+    if why:
+        ctx.checker_false += 1
+        ctx.report(stream, case, str(sorted(d1.items())), str(sorted(d0.items())), why)
+        return True
+    return False
+
+
+def rc_streams(ctx, count, rng):
+    ties, n, bad = [], 0, 0
+    for _ in range(count):
+        prof = gen_rc_profile(rng)
+        if not prof:
+            continue
+        ctx.dist['stream:rc-move-exact'] += 1
+        ties.append(dict(unit='hybrid', method='to_condorcet', profile=prof, n=1))
+        rule = rng.choice(PAIRWISE_MONO)
+        # the candidate to move: the sole winner under a pairwise rule when there is one (half of the time), else anybody
+        w0 = None
+        if rng.random() < 0.6:
+            import votelib.evaluate.condorcet as cd
+            r = common.call_impl(lambda: cd.EVALUATORS[rule].evaluate({(cname(a), cname(c)): k for (a, c), k in rc_convert(prof).items()}, 1), 10)
+            w0 = sole_winner(r[1]) if r[0] == 'ok' else None
+        moves = [(bi, i, j, None) for bi, (b, _) in enumerate(prof) for i, it in enumerate(b) if not isinstance(it, list) and (w0 is None or it == w0)
+                 for j in range(i)]
+        moves += [(bi, i, j, m) for bi, (b, _) in enumerate(prof) for i, it in enumerate(b) if isinstance(it, list) and len(it) > 1
+                  for m in it if (w0 is None or m == w0) for j in range(i + 1)]
+        rng.shuffle(moves)
+        for bi, i, j, member in moves[:4]:
+            wt = prof[bi][1]
+            for x in {1, wt} if wt >= 1 else {0}:
+                case = dict(kind='rc-move', profile=prof, ballot=bi, i=i, j=j, x=x, rule=rule)
+                if member is not None:
+                    case.update(member=member, plain_rest=rng.random() < 0.5)
+                    ctx.dist['rc-move:leaves-a-shared-rank'] += 1
+                n += 1
+                ctx.evaluations += 1
+                ctx.nontrivial.add(common.case_hash(case))
+                if any(isinstance(it, list) for it in prof[bi][0][j:i]):
+                    ctx.dist['rc-move:jumps-a-shared-rank'] += 1
+                if rc_move_check(ctx, 'rc-move-exact', case):
+                    bad += 1
+                elif member is None and rng.random() < 0.15:
+                    b = prof[bi][0]
+                    ties.append(dict(unit='hybrid', method='to_condorcet', n=1,
+                                     profile=rc_replace(prof, bi, b[:j] + [b[i]] + b[j:i] + b[i + 1:], x)))
+    ctx.streams['rc-move-exact'] = dict(cases=n, deviations=bad)
+    ctx.differential('rc-tie', ties, c05.hyb_line, c05.hyb_impl, canon=c05.hyb_canon, nontrivial=lambda c: True)
+
+
+# ------------------------------------------------------------------ rank scorers: non-increasing along the ballot (C17_scorer_ok on the implementation)
+def scorer_cases(rng, extra):
+    for base in range(-2, 4):
+        for n in range(1, 9):
+            for k in range(0, n + 1):
+                yield dict(kind='scorer', scorer=['borda', base], n_cands=n, n_ranked=k)
+    for k in range(0, 13):
+        yield dict(kind='scorer', scorer=['dowdall'], n_cands=k, n_ranked=k)
+        yield dict(kind='scorer', scorer=['modified_borda'], n_cands=k, n_ranked=k)
+        for base in range(1, 7):
+            yield dict(kind='scorer', scorer=['geometric', base], n_cands=k, n_ranked=k)
+        for top in range(-1, 9):
+            yield dict(kind='scorer', scorer=['fixed_top', top], n_cands=k, n_ranked=k)
+    for _ in range(extra):
+        sq = sorted([rng.choice([rng.randint(0, 12), jq(Fraction(rng.randint(0, 20), rng.randint(1, 4)))]) for _ in range(rng.randint(0, 6))],
+                    key=q, reverse=True)
+        yield dict(kind='scorer', scorer=['sequence', sq], n_cands=9, n_ranked=rng.randint(0, 9))
+
+
+def scorer_check(ctx, stream, c):
+    import votelib.component.rankscore as rs
+    sp = c['scorer']
+
+    def make():
+        if sp[0] == 'borda':
+            o = rs.Borda(base=sp[1])
+            o.set_n_candidates(c['n_cands'])
+            return o
+        if sp[0] == 'sequence':
+            return rs.SequenceBased([int(q(x)) if q(x).denominator == 1 else q(x) for x in sp[1]])
+        return dict(dowdall=lambda: rs.Dowdall(), modified_borda=lambda: rs.ModifiedBorda(), geometric=lambda: rs.Geometric(sp[1]),
+                    fixed_top=lambda: rs.FixedTop(sp[1]))[sp[0]]()
+    r = common.call_impl(lambda: list(make().scores(c['n_ranked'])), 5)
+    why = None
+    if r[0] != 'ok':
+        why = 'scores(%d) failed: %s' % (c['n_ranked'], r[1:])
+    elif len(r[1]) != c['n_ranked']:
+        why = '%d scores for %d ranks' % (len(r[1]), c['n_ranked'])
+    else:
+        for i in range(len(r[1]) - 1):
+            if not r[1][i + 1] <= r[1][i]:
+                why = 'score of rank %d (%s) exceeds the score of rank %d (%s)' % (i + 1, r[1][i + 1], i, r[1][i])
+                break
+    if why:
+        ctx.checker_false += 1
+        ctx.report(stream, c, str(r[1:]), 'n/a', 'rank scorer %s: %s' % (sp, why))
+        return True
+    return False
+
+
+def scorer_stream(ctx, rng):
+    n = bad = 0
+    for c in scorer_cases(rng, ctx.n(300, 3000)):
+        n += 1
+        ctx.evaluations += 1
+        ctx.dist['stream:scorer-nonincreasing'] += 1
+        if c['n_ranked'] >= 2:
+            ctx.nontrivial.add(common.case_hash(c))
+        if scorer_check(ctx, 'scorer-nonincreasing', c):
+            bad += 1
+    ctx.streams['scorer-nonincreasing'] = dict(cases=n, deviations=bad)
+
+
 def corpus():
     import os, json, glob
     for p in sorted(glob.glob(os.path.join(common.VERIF, 'corpus', ID, '*.json'))):
@@ -700,6 +924,14 @@ def run_corpus_case(ctx, c, stream='corpus'):
     elif k == 'sole-shared':
         ctx.evaluations += 1
         shared_case_check(ctx, stream, c)
+    elif k == 'rc-move':
+        ctx.evaluations += 1
+        rc_move_check(ctx, stream, c)
+    elif k == 'scorer':
+        ctx.evaluations += 1
+        scorer_check(ctx, stream, c)
+    elif c.get('unit') == 'hybrid':
+        ctx.differential(stream, [c], c05.hyb_line, c05.hyb_impl, canon=c05.hyb_canon, nontrivial=lambda c: True)
     elif c.get('unit') == 'preference_addition':
         ctx.differential(stream, [c], pa_model_line, pa_impl, canon=pa_canon, nontrivial=pa_nontrivial, spec=pa_spec, known_class=pa_diff_known)
     elif c.get('unit') == 'highest_averages':
@@ -731,6 +963,8 @@ def explore(ctx, widen=1):
     sole_winner_ranked(ctx, 'sole-winner-beatpath', ctx.n(3000, 20000) * widen, rng, beatpath=True)
     sole_winner_shared(ctx, 'sole-winner-shared-ranks', ctx.n(2500, 30000) * widen, rng)
     sole_winner_cardinal(ctx, 'sole-winner-cardinal', ctx.n(1500, 15000) * widen, rng)
+    rc_streams(ctx, ctx.n(2500, 30000) * widen, rng)
+    scorer_stream(ctx, rng)
 
 
 def replay(ctx, case, stream=None):
